@@ -3271,13 +3271,16 @@ Box<ITV>
   if (is_empty()) {
     return;
   }
+  // We want to work with a positive denominator: note that
+  // `lb_expr/denominator == (-lb_expr)/(-denominator)'.
+  if (denominator < 0) {
+    PPL_DIRTY_TEMP_COEFFICIENT(pos_denominator);
+    neg_assign(pos_denominator, denominator);
+    bounded_affine_image(var, -lb_expr, -ub_expr, pos_denominator);
+    return;
+  }
   // Add the constraint implied by the `lb_expr' and `ub_expr'.
-  if (denominator > 0) {
-    refine_with_constraint(lb_expr <= ub_expr);
-  }
-  else {
-    refine_with_constraint(lb_expr >= ub_expr);
-  }
+  refine_with_constraint(lb_expr <= ub_expr);
 
   // Check whether `var' occurs in `lb_expr' and/or `ub_expr'.
   if (lb_expr.coefficient(var) == 0) {
@@ -3497,7 +3500,10 @@ Box<ITV>
       // and use this to refine the appropriate bound.
       bool included;
       PPL_DIRTY_TEMP_COEFFICIENT(denom);
-      if (minimize(revised_lb_expr, numer_lower, denom, included)) {
+      // NOTE: if `var' does not occur in `ub_expr', then no bound
+      // for `var' can be derived.
+      if (ub_var_coeff != 0
+          && minimize(revised_lb_expr, numer_lower, denom, included)) {
         denom_lower *= (denom * ub_var_coeff);
         PPL_DIRTY_TEMP(mpq_class, q);
         assign_r(q.get_num(), numer_lower, ROUND_NOT_NEEDED);
@@ -3536,7 +3542,10 @@ Box<ITV>
       // and use this to refine the appropriate bound.
       bool included;
       PPL_DIRTY_TEMP_COEFFICIENT(denom);
-      if (maximize(revised_ub_expr, numer_upper, denom, included)) {
+      // NOTE: if `var' does not occur in `lb_expr', then no bound
+      // for `var' can be derived.
+      if (lb_var_coeff != 0
+          && maximize(revised_ub_expr, numer_upper, denom, included)) {
         denom_upper *= (denom * lb_var_coeff);
         PPL_DIRTY_TEMP(mpq_class, q);
         assign_r(q.get_num(), numer_upper, ROUND_NOT_NEEDED);
